@@ -133,6 +133,7 @@ func runMutants(prop string, files []string, verbose bool) (int, int, []string) 
 		}
 		resetTerms()
 		heapSorts = map[string]string{}
+		heapIsRef = map[string]bool{}
 		res, err := runCheck(prop, "quick", ov, true)
 		if err != nil {
 			say("MUTANT-ERROR %s %v", filepath.Base(f), err)
